@@ -285,6 +285,19 @@ def meta_data(meta):
             'edges': [[a, b, d.get('order')] for a, b, d in meta.edges(data=True)]}
 
 
+def prelude(M):
+    """earlier, unrelated use of the library in the same process: public functions called the way a user may call them
+    (plain pysmiles graphs without CGsmiles attributes, another small resolution, a sampler).  Whatever they leave behind
+    (module state, caches, mutable default arguments) is part of the history of the calls that follow."""
+    import pysmiles
+    from . import core
+    core.guard(lambda: M.pysmiles_utils.compute_mass(pysmiles.read_smiles('CCO')))
+    core.guard(lambda: M.pysmiles_utils.rebuild_h_atoms(pysmiles.read_smiles('C=C', explicit_hydrogen=False)))
+    core.guard(lambda: M.resolve.MoleculeResolver.from_string('{[#X][#Y]}.{#X=C[$],#Y=[$]O}').resolve())
+    core.guard(lambda: M.resolve.MoleculeResolver.from_string('{[#X][#Y]}.{#X=[#p][$],#Y=[$][#q]}', last_all_atom=False, legacy=False).resolve())
+    core.guard(lambda: M.read_fragments.read_fragments('{#Z=[$]C[N;0.5]}'))
+
+
 def split_layers(text):
     """('{base}', 'rest after the dot') of a layered string; the text may be symbolic (braces are concrete)"""
     items = symx.SymStr.lift(text)._chs
